@@ -1,49 +1,88 @@
 import Nstd.Buffer.LemmasMem
 /-
-  One lemma per Buffer method: on an object satisfying the representation invariant the
-  method does not fault, re-establishes the invariant and exposes exactly the stated bytes.
+  One lemma per Buffer method: on an object satisfying the representation invariant whose block
+  (if any) is live, the method does not fault (no out-of-range access, no access to a freed
+  block, no double free), re-establishes the invariant, exposes exactly the stated bytes and
+  changes the allocation ledger as `LStep` says.
 -/
 namespace Nstd.Buffer
+set_option linter.unusedVariables false   -- `hbd` is used by `grind` only
 
 /-- prove a per-method lemma: case split on the ownership state, unfold, discharge -/
-macro "buf_method" b:ident hb:ident : tactic => `(tactic| (
+macro "buf_method" b:ident hb:ident hL:ident : tactic => `(tactic| (
   obtain ⟨st, s, e, cap⟩ := $b:ident
-  cases st <;> simp only [BInv] at $hb:ident <;> buf_wp <;> mem_finish))
+  cases st <;> simp only [BInv] at $hb:ident <;>
+    (try simp only [Buf.ownId, Option.some.injEq, forall_eq', reduceCtorEq, false_implies, implies_true] at $hL:ident) <;>
+    buf_wp <;> mem_finish))
 
-theorem default_ok (v : Nat) : BInv v (Buf.default v) ∧ (Buf.default v).data = [] := by
+/-- the object's block is live -/
+def LiveIn (b : Buf) (L : Ledger) : Prop := ∀ id, b.ownId = some id → id ∈ L.live
+
+/-- all live ids were handed out before -/
+def Bounded (L : Ledger) : Prop := ∀ i ∈ L.live, i < L.next
+
+theorem default_ok (v : Nat) : BInv v (Buf.default v) ∧ (Buf.default v).data = [] ∧ (Buf.default v).ownId = none := by
   buf_wp; simp [rd]
 
-theorem ctorCap_ok (v n : Nat) : Ok (Buf.ctorCap n) (fun b' => BInv v b' ∧ b'.data = []) := by
-  buf_wp; mem_finish
+theorem free_ok {v : Nat} {b : Buf} {L : Ledger} (hL : LiveIn b L) (hbd : Bounded L) :
+    OkM (Buf.free v b) L (fun b' L' => LStep b.ownId b'.ownId L L' ∧ BInv v b' ∧ b'.data = []) := by
+  unfold LiveIn Bounded at *
+  obtain ⟨st, s, e, cap⟩ := b
+  cases st <;>
+    (try simp only [Buf.ownId, Option.some.injEq, forall_eq', reduceCtorEq, false_implies, implies_true] at hL) <;>
+    buf_wp <;> mem_finish
 
-theorem ctorData_ok (v : Nat) (d : List Byte) : Ok (Buf.ctorData d) (fun b' => BInv v b' ∧ b'.data = d) := by
-  buf_wp; mem_finish
+theorem ctorCap_ok (v n : Nat) {b : Buf} {L : Ledger} (hL : LiveIn b L) (hbd : Bounded L) :
+    OkM (do b.destroy; Buf.ctorCap n) L (fun b' L' => LStep b.ownId b'.ownId L L' ∧ BInv v b' ∧ b'.data = []) := by
+  unfold LiveIn Bounded at *
+  obtain ⟨st, s, e, cap⟩ := b
+  cases st <;>
+    (try simp only [Buf.ownId, Option.some.injEq, forall_eq', reduceCtorEq, false_implies, implies_true] at hL) <;>
+    buf_wp <;> mem_finish
 
-theorem attach_ok (v : Nat) (range : List Byte) :
-    BInv v (Buf.attach range) ∧ (Buf.attach range).data = range := by
-  buf_wp; mem_finish
+theorem ctorData_ok (v : Nat) (d : List Byte) {b : Buf} {L : Ledger} (hL : LiveIn b L) (hbd : Bounded L) :
+    OkM (do b.destroy; Buf.ctorData d) L (fun b' L' => LStep b.ownId b'.ownId L L' ∧ BInv v b' ∧ b'.data = d) := by
+  unfold LiveIn Bounded at *
+  obtain ⟨st, s, e, cap⟩ := b
+  cases st <;>
+    (try simp only [Buf.ownId, Option.some.injEq, forall_eq', reduceCtorEq, false_implies, implies_true] at hL) <;>
+    buf_wp <;> mem_finish
 
-theorem contents_ok {v : Nat} {b : Buf} (hb : BInv v b) : b.contents = some b.data := by
-  have : Ok b.contents (fun c => c = b.data) := by
-    buf_method b hb
-  obtain ⟨c, hc, rfl⟩ := this
+theorem attach_ok (v : Nat) (range : List Byte) {b : Buf} {L : Ledger} (hL : LiveIn b L) (hbd : Bounded L) :
+    OkM (b.attach range) L (fun b' L' => LStep b.ownId b'.ownId L L' ∧ BInv v b' ∧ b'.data = range) := by
+  unfold LiveIn Bounded at *
+  obtain ⟨st, s, e, cap⟩ := b
+  cases st <;>
+    (try simp only [Buf.ownId, Option.some.injEq, forall_eq', reduceCtorEq, false_implies, implies_true] at hL) <;>
+    buf_wp <;> mem_finish
+
+theorem contents_ok {v : Nat} {b : Buf} {L : Ledger} (hb : BInv v b) (hL : LiveIn b L) :
+    b.contents L = some (b.data, L) := by
+  have : OkM b.contents L (fun c L' => c = b.data ∧ L' = L) := by
+    unfold LiveIn at hL
+    buf_method b hb hL
+  obtain ⟨c, L', hc, rfl, rfl⟩ := this
   exact hc
 
-theorem assign_ok {v : Nat} {b : Buf} (hb : BInv v b) (d : List Byte) :
-    Ok (b.assign d) (fun b' => BInv v b' ∧ b'.data = d) := by
-  buf_method b hb
+theorem assign_ok {v : Nat} {b : Buf} {L : Ledger} (hb : BInv v b) (hL : LiveIn b L) (hbd : Bounded L) (d : List Byte) :
+    OkM (b.assign d) L (fun b' L' => LStep b.ownId b'.ownId L L' ∧ BInv v b' ∧ b'.data = d) := by
+  unfold LiveIn Bounded at *
+  buf_method b hb hL
 
-theorem assignSelf_ok {v : Nat} {b : Buf} (hb : BInv v b) :
-    Ok b.assignSelf (fun b' => BInv v b' ∧ b'.data = b.data) := by
-  buf_method b hb
+theorem assignSelf_ok {v : Nat} {b : Buf} {L : Ledger} (hb : BInv v b) (hL : LiveIn b L) (hbd : Bounded L) :
+    OkM b.assignSelf L (fun b' L' => LStep b.ownId b'.ownId L L' ∧ BInv v b' ∧ b'.data = b.data) := by
+  unfold LiveIn Bounded at *
+  buf_method b hb hL
 
-theorem prepend_ok {v : Nat} {b : Buf} (hb : BInv v b) (d : List Byte) :
-    Ok (b.prepend d) (fun b' => BInv v b' ∧ b'.data = d ++ b.data) := by
-  buf_method b hb
+theorem prepend_ok {v : Nat} {b : Buf} {L : Ledger} (hb : BInv v b) (hL : LiveIn b L) (hbd : Bounded L) (d : List Byte) :
+    OkM (b.prepend d) L (fun b' L' => LStep b.ownId b'.ownId L L' ∧ BInv v b' ∧ b'.data = d ++ b.data) := by
+  unfold LiveIn Bounded at *
+  buf_method b hb hL
 
-theorem prependSelf_ok {v : Nat} {b : Buf} (hb : BInv v b) :
-    Ok b.prependSelf (fun b' => BInv v b' ∧ b'.data = b.data ++ b.data) := by
-  buf_method b hb
+theorem prependSelf_ok {v : Nat} {b : Buf} {L : Ledger} (hb : BInv v b) (hL : LiveIn b L) (hbd : Bounded L) :
+    OkM b.prependSelf L (fun b' L' => LStep b.ownId b'.ownId L L' ∧ BInv v b' ∧ b'.data = b.data ++ b.data) := by
+  unfold LiveIn Bounded at *
+  buf_method b hb hL
 
 theorem rd_rd (m : List Byte) (s n off len : Nat) (h : off + len ≤ n) :
     rd (rd m s n) off len = rd m (s + off) len := by
@@ -55,13 +94,15 @@ theorem rd_rd (m : List Byte) (s n off len : Nat) (h : off + len ≤ n) :
     simp only [hi, this, if_true, Nat.add_assoc]
   · simp [hi]
 
-theorem prependSub_ok {v : Nat} {b : Buf} (hb : BInv v b) (off len : Nat) (h : off + len ≤ b.e - b.s) :
-    Ok (b.prependSub off len) (fun b' => BInv v b' ∧ b'.data = rd b.data off len ++ b.data) := by
+theorem prependSub_ok {v : Nat} {b : Buf} {L : Ledger} (hb : BInv v b) (hL : LiveIn b L) (hbd : Bounded L) (off len : Nat) (h : off + len ≤ b.e - b.s) :
+    OkM (b.prependSub off len) L (fun b' L' => LStep b.ownId b'.ownId L L' ∧ BInv v b' ∧ b'.data = rd b.data off len ++ b.data) := by
+  unfold LiveIn Bounded at *
   obtain ⟨st, s, e, cap⟩ := b
   cases st with
-  | own m =>
+  | own id m =>
     simp only [BInv] at hb
     simp only [] at h
+    simp only [Buf.ownId, Option.some.injEq, forall_eq'] at hL
     by_cases hs : len ≤ s
     · obtain ⟨q, rfl⟩ : ∃ q, s = q + len := ⟨s - len, by omega⟩
       buf_wp
@@ -72,51 +113,60 @@ theorem prependSub_ok {v : Nat} {b : Buf} (hb : BInv v b) (off len : Nat) (h : o
       mem_finish
   | att m => simp only [BInv] at hb; simp only [] at h; buf_wp; simp only [rd_rd _ _ _ _ _ h]; mem_finish
   | dflt c => simp only [BInv] at hb; simp only [] at h; buf_wp; simp only [rd_rd _ _ _ _ _ h]; mem_finish
-theorem prependSubClamped_ok {v : Nat} {b : Buf} (hb : BInv v b) (off len : Nat) :
-    Ok (b.prependSubClamped off len) (fun b' => BInv v b' ∧ b'.data = (b.data.drop off).take len ++ b.data) := by
+
+theorem prependSubClamped_ok {v : Nat} {b : Buf} {L : Ledger} (hb : BInv v b) (hL : LiveIn b L) (hbd : Bounded L) (off len : Nat) :
+    OkM (b.prependSubClamped off len) L (fun b' L' => LStep b.ownId b'.ownId L L' ∧ BInv v b' ∧ b'.data = (b.data.drop off).take len ++ b.data) := by
   have hlen : b.data.length = b.e - b.s := by
     obtain ⟨st, s, e, cap⟩ := b
     cases st <;> simp only [BInv] at hb <;> simp only [Buf.data, Store.mem, rd_length] <;> grind
   unfold Buf.prependSubClamped
-  refine (prependSub_ok hb _ _ (by split <;> split <;> omega)).mono (fun b' h => ⟨h.1, ?_⟩)
-  rw [h.2]
+  refine (prependSub_ok hb hL hbd _ _ (by split <;> split <;> omega)).mono (fun b' L' h => ⟨h.1, h.2.1, ?_⟩)
+  rw [h.2.2]
   congr 1
   apply List.ext_getElem?
   intro i
   simp only [rd_get, List.getElem?_take, List.getElem?_drop]
   grind
 
-theorem resize_ok {v : Nat} {b : Buf} (hb : BInv v b) (n : Nat) :
-    Ok (b.resize n) (fun b' => BInv v b' ∧ b'.data.length = n ∧
+theorem resize_ok {v : Nat} {b : Buf} {L : Ledger} (hb : BInv v b) (hL : LiveIn b L) (hbd : Bounded L) (n : Nat) :
+    OkM (b.resize n) L (fun b' L' => LStep b.ownId b'.ownId L L' ∧ BInv v b' ∧ b'.data.length = n ∧
       ∀ i : Nat, i < n → i < b.data.length → b'.data[i]? = b.data[i]?) := by
-  buf_method b hb
+  unfold LiveIn Bounded at *
+  buf_method b hb hL
 
-theorem append_ok {v : Nat} {b : Buf} (hb : BInv v b) (d : List Byte) :
-    Ok (b.append d) (fun b' => BInv v b' ∧ b'.data = b.data ++ d) := by
-  buf_method b hb
+theorem append_ok {v : Nat} {b : Buf} {L : Ledger} (hb : BInv v b) (hL : LiveIn b L) (hbd : Bounded L) (d : List Byte) :
+    OkM (b.append d) L (fun b' L' => LStep b.ownId b'.ownId L L' ∧ BInv v b' ∧ b'.data = b.data ++ d) := by
+  unfold LiveIn Bounded at *
+  buf_method b hb hL
 
-theorem appendSelf_ok {v : Nat} {b : Buf} (hb : BInv v b) :
-    Ok b.appendSelf (fun b' => BInv v b' ∧ b'.data = b.data ++ b.data) := by
-  buf_method b hb
+theorem appendSelf_ok {v : Nat} {b : Buf} {L : Ledger} (hb : BInv v b) (hL : LiveIn b L) (hbd : Bounded L) :
+    OkM b.appendSelf L (fun b' L' => LStep b.ownId b'.ownId L L' ∧ BInv v b' ∧ b'.data = b.data ++ b.data) := by
+  unfold LiveIn Bounded at *
+  buf_method b hb hL
 
-theorem removeFront_ok {v : Nat} {b : Buf} (hb : BInv v b) (n : Nat) :
-    Ok (b.removeFront v n) (fun b' => BInv v b' ∧ b'.data = b.data.drop n) := by
-  buf_method b hb
+theorem removeFront_ok {v : Nat} {b : Buf} {L : Ledger} (hb : BInv v b) (hL : LiveIn b L) (hbd : Bounded L) (n : Nat) :
+    OkM (b.removeFront v n) L (fun b' L' => LStep b.ownId b'.ownId L L' ∧ BInv v b' ∧ b'.data = b.data.drop n) := by
+  unfold LiveIn Bounded at *
+  buf_method b hb hL
 
-theorem removeBack_ok {v : Nat} {b : Buf} (hb : BInv v b) (n : Nat) :
-    Ok (b.removeBack v n) (fun b' => BInv v b' ∧ b'.data = b.data.take (b.data.length - n)) := by
-  buf_method b hb
+theorem removeBack_ok {v : Nat} {b : Buf} {L : Ledger} (hb : BInv v b) (hL : LiveIn b L) (hbd : Bounded L) (n : Nat) :
+    OkM (b.removeBack v n) L (fun b' L' => LStep b.ownId b'.ownId L L' ∧ BInv v b' ∧ b'.data = b.data.take (b.data.length - n)) := by
+  unfold LiveIn Bounded at *
+  buf_method b hb hL
 
-theorem reserve_ok {v : Nat} {b : Buf} (hb : BInv v b) (n : Nat) :
-    Ok (b.reserve n) (fun b' => BInv v b' ∧ b'.data = b.data) := by
-  buf_method b hb
+theorem reserve_ok {v : Nat} {b : Buf} {L : Ledger} (hb : BInv v b) (hL : LiveIn b L) (hbd : Bounded L) (n : Nat) :
+    OkM (b.reserve n) L (fun b' L' => LStep b.ownId b'.ownId L L' ∧ BInv v b' ∧ b'.data = b.data) := by
+  unfold LiveIn Bounded at *
+  buf_method b hb hL
 
-theorem clear_ok {v : Nat} {b : Buf} (hb : BInv v b) :
-    Ok b.clear (fun b' => BInv v b' ∧ b'.data = []) := by
-  buf_method b hb
+theorem clear_ok {v : Nat} {b : Buf} {L : Ledger} (hb : BInv v b) (hL : LiveIn b L) (hbd : Bounded L) :
+    OkM b.clear L (fun b' L' => LStep b.ownId b'.ownId L L' ∧ BInv v b' ∧ b'.data = []) := by
+  unfold LiveIn Bounded at *
+  buf_method b hb hL
 
 theorem rehome_ok {owner other : Nat} {b : Buf} (hb : BInv other b) :
-    BInv owner (b.rehome owner other) ∧ (b.rehome owner other).data = b.data := by
+    BInv owner (b.rehome owner other) ∧ (b.rehome owner other).data = b.data ∧
+      (b.rehome owner other).ownId = b.ownId := by
   obtain ⟨st, s, e, cap⟩ := b
   cases st <;> simp only [BInv] at hb <;> simp only [Buf.rehome] <;> buf_wp
   · exact hb
